@@ -321,6 +321,9 @@ def expand_nodes(x, nodes, span=None):
                     if a[0] == 'nodes' and any(n_[0] == 'use' for n_ in a[1]):
                         x.feat.add('call-in-argument')
             expand_body(x, m.body, binding, sp, m.cw_end)
+            if m.default is not None and opt is None and m.n == 1:
+                # still looking for its optional argument: blanks that follow are skipped, as in TeX
+                x.cur().append(('nosp',))
 
 
 def expand_body(x, body, binding, span, cw_end=()):
@@ -387,15 +390,20 @@ def compare(x, plain, pos, shift, case, src):
     for f in [x.main] + x.done:
         pending = False
         first = True
+        noclaim = False
         for a in f:
+            if a[0] == 'nosp':
+                noclaim = True
+                continue
             if a[0] == 'sp':
-                pending = not first
+                pending = (not first) and not noclaim
                 continue
             if pending and a[1]:
                 gaps.add(len(exp))
             if a[1]:
                 pending = False
                 first = False
+                noclaim = False
             if a[0] == 'w':
                 for i, ch in enumerate(a[1]):
                     exp.append((ch, a[2] + i + 1, a[2] + i + 1))
